@@ -327,7 +327,10 @@ pub(super) fn derive_schema(input: TokenStream) -> syn::Result<TokenStream> {
     }
 
     fn schema_of_variants(variants: Punctuated<Variant, token::Comma>, container_attrs: &ContainerAttributes) -> syn::Result<TokenStream> {
-        if variants.iter().all(|v| matches!(v.fields, Fields::Unit)) && container_attrs.serde.tag.is_none() {
+        if variants.iter().all(|v| matches!(v.fields, Fields::Unit))
+        && container_attrs.serde.tag.is_none()
+        && !container_attrs.serde.untagged
+        {
             /* when like `enum Color { Red, Blue, Green }` (with `tag`, they are objects having the tag) */
 
             let mut variant_names = Vec::with_capacity(variants.len());
@@ -355,6 +358,7 @@ pub(super) fn derive_schema(input: TokenStream) -> syn::Result<TokenStream> {
 
         } else {
             let mut variant_schemas = Vec::with_capacity(variants.len());
+            let mut has_null = false;
             for v in variants {
                 let variant_attrs = VariantAttributes::new(&v.attrs)?;
 
@@ -405,6 +409,16 @@ pub(super) fn derive_schema(input: TokenStream) -> syn::Result<TokenStream> {
                     &*container_attrs.serde.content,
                     container_attrs.serde.untagged
                 ) {
+                    (_, _, true) if is_unit => {/* Untagged: every unit variant is `null` */
+                        if has_null {
+                            continue /* `oneOf` must not have it twice */
+                        }
+                        has_null = true;
+                        quote! {
+                            ::ohkami::openapi::null()
+                        }
+                    }
+
                     (_, _, true) => {/* Untagged */
                         schema
                     }
